@@ -25,7 +25,8 @@ LEAF_KINDS = ["input", "output", "inout", "port", "role_hd", "role_dh", "plain",
               # role-carrying leaves that name one end only
               "role_h_", "role_d_", "role__h", "role__d"]
 # how a flip parity is written down: the constructor flag, flipped(), or several of them on top of each other
-VIAS = {False: ["ctor", "ctor+fn", "fn+fn"], True: ["ctor", "fn", "ctor+fn+fn"]}
+# … or a copy made by list multiplication (`a, b = 2 * B(flipped=True)`: every copy is what the original is — seed C10-r8-2)
+VIAS = {False: ["ctor", "ctor+fn", "fn+fn", "mul"], True: ["ctor", "fn", "ctor+fn+fn", "mul", "fn+mul"]}
 
 
 class _R(Enum):
@@ -60,6 +61,10 @@ def leaf_json(name, kind, w):
 def mk_inst(B, flip, via, **kw):
     """An instance of `B` whose flip parity is `flip`, written the way `via` says."""
     f = hbundle.flipped
+    if via == "mul":
+        return (2 * B(flipped=flip, **kw))[1]
+    if via == "fn+mul" and flip:
+        return (3 * f(B(**kw)))[2]
     if via == "fn" and flip:
         return f(B(**kw))
     if via == "ctor+fn" and not flip:
@@ -303,9 +308,9 @@ def exhaustive_small():
                     t = {"sigs": [leaf_json("x", kind, 1)], "subs": []}
                     k = len(kind) + depth + sum(flips) + sum(r is not None for r in roles)  # walks through the ways of writing a flip
                     for d in range(depth):
-                        t = {"sigs": [], "subs": [{"n": f"l{d}", "flip": flips[d + 1], "via": VIAS[flips[d + 1]][(k + d) % 3], "role": roles[d + 1], "of": t,
+                        t = {"sigs": [], "subs": [{"n": f"l{d}", "flip": flips[d + 1], "via": VIAS[flips[d + 1]][(k + d) % len(VIAS[flips[d + 1]])], "role": roles[d + 1], "of": t,
                                                    "port": (sum(flips) + d) % 2 == 1}]}
-                    case = {"tree": t, "flip": flips[0], "via": VIAS[flips[0]][(k + depth + 1) % 3], "role": roles[0],
+                    case = {"tree": t, "flip": flips[0], "via": VIAS[flips[0]][(k + depth + 1) % len(VIAS[flips[0]])], "role": roles[0],
                             "role_objs": ("same", "again", "alone")[(len(kind) + depth + sum(flips)) % 3],
                             "port_as": ("bool", "enum")[(k + len(kind)) % 2]}
                     yield case
